@@ -223,10 +223,9 @@ func addSubscription(m *match.Match, s *pb.SubscriptionList, c *matchClient) (re
 	var removes []func()
 	prefix := path.ToStrings(s.Prefix, true)
 	for _, sub := range s.Subscription {
+		// A subscription without a path selects the prefix itself, as it does
+		// for the initial snapshot (path.CompletePath).
 		p := sub.GetPath()
-		if p == nil {
-			continue
-		}
 		query := prefix
 		if origin := p.GetOrigin(); s.Prefix.GetOrigin() == "" && origin != "" {
 			query = append(prefix, origin)
